@@ -16,6 +16,7 @@ class Unsure(Exception):
     def __init__(self, cls): Exception.__init__(self, cls); self.cls = cls
 
 LT, EQ, GT, INDET, NE = -1, 0, 1, 2, 3
+KNOWN_OFF = False       # True while replaying the witness of a known finding: known-finding classes are then asserted, not skipped
 
 # ------------------------------------------------------------------------------------------------
 # whitespace
@@ -115,8 +116,8 @@ def round_binary(fr, p, emin):
 
 class FV:
     """float/double value: kind in 'nan','inf','-inf','num'; num carries exact Fraction + sign of zero"""
-    __slots__ = ('kind', 'fr', 'neg', 'clamped')
-    def __init__(self, kind, fr=None, neg=False, clamped=False): self.kind = kind; self.fr = fr; self.neg = neg; self.clamped = clamped
+    __slots__ = ('kind', 'fr', 'neg', 'clamped', 'd53')
+    def __init__(self, kind, fr=None, neg=False, clamped=False, d53=None): self.kind = kind; self.fr = fr; self.neg = neg; self.clamped = clamped; self.d53 = d53
     def key(self): return (self.kind, self.fr, self.neg if self.fr == 0 else None)
     def __repr__(self): return 'FV(%s,%s,%s)' % (self.kind, self.fr, self.neg)
 
@@ -137,6 +138,9 @@ def parse_float(tname, s):
     maxfin = Fraction(2 ** p - 1) * Fraction(2) ** emax
     if tname == 'float':
         # documented conversion (doc/schema.xml): |x| < 2^-149 -> +-0 ; |x| > 2^24*2^104 -> +-INF ; otherwise the value is kept
+        d53 = round_binary(fr, 53, -1074)          # the documented thresholds are applied to the strtod() result
+        if (fr < Fraction(2) ** -149) != (d53 < Fraction(2) ** -149) or (fr > Fraction(2) ** 128) != (d53 > Fraction(2) ** 128):
+            raise Unsure('float-threshold-within-double-rounding')
         if fr < Fraction(2) ** -149: return FV('num', Fraction(0), neg, True)
         if fr > Fraction(2) ** 128: return FV('-inf' if neg else 'inf', clamped=True)
         if fr > maxfin: raise Unsure('float-between-FLT_MAX-and-2^128')
@@ -144,7 +148,7 @@ def parse_float(tname, s):
         twice = round_binary(round_binary(fr, 53, -1074), 24, -149)
         if direct != twice: raise Unsure('float-double-rounding')
         if direct > maxfin: raise Unsure('float-rounds-to-overflow')
-        return FV('num', direct, neg)
+        return FV('num', direct, neg, d53=d53)
     # double: strtod; ERANGE overflow -> INF, underflow -> 0 (documented; threshold platform dependent -> stay clear of it)
     r = round_binary(fr, 53, -1074)
     if r > maxfin or fr >= Fraction(2) ** 1024:
@@ -166,6 +170,8 @@ def cmp_float(a, b):
     if a.kind != 'num': return EQ
     x = -a.fr if a.neg else a.fr; y = -b.fr if b.neg else b.fr
     if x == 0 and y == 0 and a.neg != b.neg: raise Unsure('signed-zero-order')
+    if not KNOWN_OFF and x == y and a.d53 is not None and b.d53 is not None and (a.d53 != b.d53 or a.neg != b.neg) and x != 0:
+        raise Unsure('known:C09-float-compared-as-double')     # finding: xs:float values are compared at double precision
     return LT if x < y else GT if x > y else EQ
 
 RE_CANON_FLOAT = re.compile(r'(?:-?[1-9]\.(?:[0-9]*[1-9]|0)E(?:0|-?[1-9][0-9]*)|-?0\.0E0|INF|-INF|NaN)\Z')
@@ -920,7 +926,7 @@ def variant(draw, tn, lit):
             y, mo, d = civil_from_days(days)
             z = 'Z' if ntz == 0 and draw(st.booleans()) else '%s%02d:%02d' % ('-' if ntz < 0 else '+', abs(ntz) // 60, abs(ntz) % 60)
             return '%04d-%02d-%02dT%02d:%02d:%s%s' % (y, mo, d, secs // 3600, (secs // 60) % 60, _fmt_sec(v.s), z)
-        m = re.match(r'(.*:[0-9]{2})(\.[0-9]+)?(Z|[+-][0-9:]+)?\Z', lit)
+        m = re.match(r'((?:.*T)?[0-9]{2}:[0-9]{2}:[0-9]{2})(\.[0-9]+)?(Z|[+-][0-9]{2}:[0-9]{2})?\Z', lit)
         if m: return m.group(1) + ((m.group(2) or '.') + '0') + (m.group(3) or '')
         return lit
     if k == 'duration':
